@@ -585,6 +585,9 @@ fn describe(c: &Case) -> serde_json::Value {
 }
 
 pub fn replay(case: &serde_json::Value) -> i32 {
+    if case["part"] == "d" && super::c09c::replay_d(case) {
+        return 1;
+    }
     if case["part"] == "c" && super::c09c::replay(case) {
         return 1;
     }
@@ -811,11 +814,13 @@ pub fn run(tier: Tier) -> i32 {
     });
     let internal_runs = internal_descriptors(&ctx);
     let (c_execs, c_judged) = super::c09c::run(&ctx);
+    let d_execs = super::c09c::run_d(&ctx);
     let cov = json!({
         "internal_descriptor_scenarios": internal_runs,
         "part_c_interrupted_script_executions": c_execs,
+        "part_d_failed_exec_executions": d_execs,
         "part_c_executions_judged": c_judged,
-        "evaluations": evals.load(Relaxed) + internal_runs + c_execs,
+        "evaluations": evals.load(Relaxed) + internal_runs + c_execs + d_execs,
         "distinct_nontrivial": nontrivial.lock().unwrap().len(),
         "rule": "every redirection list of length <= 2 (thorough: + a length-3 slice) over the operator x target-fd x operand alphabet, on each of 11 command kinds, with noclobber on/off where it matters; fault cases repeat lists under `ulimit -n N` for every N in 5..=14 so that each descriptor allocation (save-dup to >=10, open, here-document temp file, dup2) fails at some N. Non-trivial = a redirection fails, or a descriptor limit is in force, or two redirections hit the same descriptor; distinct by script text. Plus 14 scenarios in which the shell holds descriptors of its own (dot scripts, nested dot, saved copies for redirected groups/functions/built-ins, substitutions, here-documents, pipelines, eval, traps, async lists) x 3 user descriptor layouts (none, 3..9 all taken, 3 5 9) x 3 ways of reading the main script (-c, file operand, standard input) and, for -c, under every descriptor limit 5..14 (table at exit = table before the scenario): at every probe every descriptor >= 10 is close-on-exec and nothing the script did not open is below 10. (c) an interactive shell runs a script (by ., source, command ., command source, eval, inside a function, in a redirected group) that blocks in `wait`; SIGINT at every system call: whenever the shell goes on with the next line its descriptor table is what it was before the line.",
         "samples": samples.take(),
